@@ -29,6 +29,180 @@ theorem userToUserEntry_fields (u : UserCfg) :
 theorem groupToGroupEntry_spec (g : GroupCfg) : groupToGroupEntry g = specGroup g := rfl
 
 
+/-! ## accounts -/
+
+/-- what a successful passwd goroutine did, step by step -/
+theorem usersPart_ok (c : Cfg) (fs fs' : FS) (cfg : AccCfg) (r : Text)
+    (h : usersPart c fs cfg = (fs', none, r)) :
+    ∃ fs1 t old fs2, readOrCreate c fs passwdPath = (fs1, .ok t) ∧ loadUsers t = some old ∧
+      seqM (homeStep c) fs1 (old ++ cfg.users.map userToUserEntry) = (fs2, none) ∧
+      writeBack c fs2 passwdPath (writeUsers (old ++ cfg.users.map userToUserEntry)) = (fs', none) ∧
+      r = resolveRunAs (old ++ cfg.users.map userToUserEntry) cfg.runAs := by
+  unfold usersPart at h
+  split at h
+  · simp at h
+  · rename_i fs1 t hro
+    split at h
+    · simp at h
+    · rename_i old hload
+      simp only [] at h
+      split at h
+      · simp at h
+      · rename_i fs2 hhome
+        split at h
+        · simp at h
+        · rename_i fs3 hw
+          simp only [Prod.mk.injEq, true_and] at h
+          obtain ⟨rfl, rfl⟩ := h
+          exact ⟨fs1, t, old, fs2, hro, hload, hhome, hw, rfl⟩
+
+theorem groupsPart_ok (c : Cfg) (fs fs' : FS) (gs : List GroupCfg) (hne : gs ≠ [])
+    (h : groupsPart c fs gs = (fs', none)) :
+    ∃ fs1 t old, readOrCreate c fs groupPath = (fs1, .ok t) ∧ loadGroups t = some old ∧
+      writeBack c fs1 groupPath (writeGroups (old ++ gs.map groupToGroupEntry)) = (fs', none) := by
+  unfold groupsPart at h
+  simp only [hne, if_false] at h
+  split at h
+  · simp at h
+  · rename_i fs1 t hro
+    split at h
+    · simp at h
+    · rename_i old hload
+      exact ⟨fs1, t, old, hro, hload, liftE_ok h⟩
+
+/-- no groups configured: the group file is not touched at all -/
+theorem groupsPart_none (c : Cfg) (fs : FS) : groupsPart c fs [] = (fs, none) := by simp [groupsPart]
+
+/-- **passwd_append / group_append (what is written)**: a successful `mutateAccounts` read the
+existing files (creating them empty when absent), parsed every line, and wrote back — as the last
+thing it did to each file — the rendering of exactly *old entries ++ configured entries*, the
+configured ones being the Spec's entries (`specUser`, `specGroup`: ids, shell, home, members,
+defaults). -/
+theorem accounts_append (c : Cfg) (fs fs' : FS) (cfg : AccCfg) (r : Text)
+    (h : mutateAccounts c fs cfg = (fs', none, r)) :
+    ∃ fsg fs1 t oldU fs2,
+      groupsPart c fs cfg.groups = (fsg, none) ∧
+      (cfg.groups ≠ [] → ∃ fg tg oldG, readOrCreate c fs groupPath = (fg, .ok tg) ∧ loadGroups tg = some oldG ∧
+        writeBack c fg groupPath (writeGroups (oldG ++ cfg.groups.map specGroup)) = (fsg, none)) ∧
+      readOrCreate c fsg passwdPath = (fs1, .ok t) ∧ loadUsers t = some oldU ∧
+      seqM (homeStep c) fs1 (oldU ++ cfg.users.map specUser) = (fs2, none) ∧
+      writeBack c fs2 passwdPath (writeUsers (oldU ++ cfg.users.map specUser)) = (fs', none) ∧
+      r = resolveRunAs (oldU ++ cfg.users.map specUser) cfg.runAs := by
+  unfold mutateAccounts at h
+  cases hg : groupsPart c fs cfg.groups with
+  | mk fsg ge =>
+    cases hu : usersPart c fsg cfg with
+    | mk fs2 ur =>
+      obtain ⟨ue, r'⟩ := ur
+      simp only [hg, hu, Prod.mk.injEq] at h
+      obtain ⟨rfl, he, rfl⟩ := h
+      cases ge with
+      | some e => simp at he
+      | none =>
+        simp only [] at he
+        subst he
+        obtain ⟨fs1, t, old, fs2', h1, h2, h3, h4, h5⟩ := usersPart_ok c fsg _ cfg _ hu
+        have hmap : cfg.users.map userToUserEntry = cfg.users.map specUser := by
+          apply List.map_congr_left; intro u _; exact userToUserEntry_spec u
+        rw [hmap] at h3 h4 h5
+        refine ⟨fsg, fs1, t, old, fs2', rfl, ?_, h1, h2, h3, h4, h5⟩
+        intro hne
+        obtain ⟨fg, tg, oldG, g1, g2, g3⟩ := groupsPart_ok c fs fsg cfg.groups hne hg
+        exact ⟨fg, tg, oldG, g1, g2, g3⟩
+
+/-- **runas_resolved**: after a successful `mutateAccounts`, a `run-as` that names a user of the
+image's passwd (pre-existing or configured) has been replaced by the numeric id of a user with that
+name — the first such entry, as `getpwnam` would answer; otherwise it is kept. -/
+theorem runas_resolved (entries : List User) (runAs : Text) (hne : runAs ≠ []) :
+    (∀ u, entries.find? (fun u => u.name = runAs) = some u →
+      resolveRunAs entries runAs = natToDec u.uid ∧ u ∈ entries ∧ u.name = runAs) ∧
+    ((∀ u ∈ entries, u.name ≠ runAs) → resolveRunAs entries runAs = runAs) := by
+  constructor
+  · intro u hu
+    refine ⟨by simp [resolveRunAs, hne, hu], List.mem_of_find?_eq_some hu, ?_⟩
+    simpa using List.find?_some hu
+  · intro hall
+    have : entries.find? (fun u => u.name = runAs) = none := by
+      rw [List.find?_eq_none]; intro u hu; simpa using hall u hu
+    simp [resolveRunAs, hne, this]
+
+/-- a matching user always exists in the list when some entry has the name -/
+theorem runas_resolved_exists (entries : List User) (runAs : Text) (hne : runAs ≠ [])
+    (u : User) (hu : u ∈ entries) (hn : u.name = runAs) :
+    ∃ v ∈ entries, v.name = runAs ∧ resolveRunAs entries runAs = natToDec v.uid := by
+  cases hf : entries.find? (fun u => u.name = runAs) with
+  | none =>
+    rw [List.find?_eq_none] at hf
+    exact absurd hn (by simpa using hf u hu)
+  | some v =>
+    obtain ⟨h1, h2, h3⟩ := (runas_resolved entries runAs hne).1 v hf
+    exact ⟨v, h2, h3, h1⟩
+
+theorem runas_empty (entries : List User) : resolveRunAs entries [] = [] := by simp [resolveRunAs]
+
+/-! ## home directories -/
+
+/-- `/dev/null` homes are skipped -/
+theorem home_devnull_skipped (c : Cfg) (fs : FS) (u : User) (h : u.home = devNull) :
+    homeStep c fs u = (fs, none) := by simp [homeStep, h]
+
+/-- **home_created (present)**: a home that already exists as a directory is left exactly as it
+is (nothing in the file system changes); one that exists as something else fails the build. -/
+theorem home_present_untouched (c : Cfg) (fs : FS) (u : User) (s : StatInfo)
+    (h : (step c fs (.stat (clean u.home))).2 = .ok (.stat s)) :
+    homeStep c fs u = (fs, if u.home = devNull ∨ s.isDir then none else some .homeNotDir) := by
+  unfold homeStep
+  by_cases hd : u.home = devNull
+  · simp [hd]
+  · simp only [hd, if_false, h, false_or]
+    cases s.isDir <;> simp
+
+/-- **home_created (absent)**: when the (cleaned) home path does not resolve, a successful
+iteration leaves a *new* directory at that path with mode `drwx------` (0700) owned by the
+entry's uid and gid.  `hsplit`/`hp` say the path is an ordinary one — its components are those
+of its `Dir` followed by its `Base` (true of every cleaned absolute path other than `/`). -/
+theorem home_created (c : Cfg) (hc : c.posix = false) (fs fs' : FS) (u : User)
+    (hi : FS.Inv fs) (hb : DirBit fs) (hdev : u.home ≠ devNull)
+    (habs : (step c fs (.stat (clean u.home))).2 = .err .notExist)
+    (hsplit : parts (clean u.home) = parts (dir (clean u.home)) ++ [base (clean u.home)])
+    (hp : clean u.home ≠ slash ∧ clean u.home ≠ dot ∧ dir (clean u.home) ≠ dot)
+    (h : homeStep c fs u = (fs', none)) :
+    ∃ i, follow c fs' (clean u.home) = some i ∧ fs.nodes.length ≤ i ∧
+      (fs'.node i).dir = true ∧ (fs'.node i).mode = modeDir ||| 0o700 ∧ unixPerm (fs'.node i).mode = 0o700 ∧
+      (fs'.node i).uid = u.uid ∧ (fs'.node i).gid = u.gid := by
+  unfold homeStep at h
+  simp only [hdev, if_false, habs] at h
+  obtain ⟨fs1, h1, h'⟩ := andThen_ok (liftE_ok h)
+  obtain ⟨fs2, h2, h3⟩ := andThen_ok h'
+  -- the parent chain
+  have e1 : fs1 = (mkdirAll c fs (dir (clean u.home)) homeParentPerm).1 := by
+    simp only [act, step, Prod.mk.injEq] at h1; exact h1.1.symm
+  have hi1 : FS.Inv fs1 := by rw [e1]; exact mkdirAll_inv c fs _ _ hi
+  have hb1 : DirBit fs1 := by rw [e1]; exact mkdirAll_dirBit c fs _ _ hi hb
+  have hlen : fs.nodes.length ≤ fs1.nodes.length := by
+    rw [e1]; exact mkdirAll_length c fs _ _
+  -- the home itself
+  obtain ⟨hres, hnode, hi2, _⟩ := mkdir_then_resolve hc hi1 hb1 h2 hsplit hp (by decide)
+  obtain ⟨j, hg, rfl⟩ := chown_ok h3
+  rw [hres] at hg; cases hg
+  have hl2 : fs1.nodes.length < fs2.nodes.length := getNode_live hi2 c _ _ hres
+  refine ⟨fs1.nodes.length, ?_, hlen, ?_, ?_, ?_, ?_, ?_⟩
+  · have := getNode_shape (ShapeEq.modify fs2 fs1.nodes.length (fun n => { n with uid := (u.uid : Int), gid := (u.gid : Int) })
+      (by intro n; rfl) (by intro n; rfl) rfl (by intro n; rfl)) c (clean u.home)
+    simp [follow, this, hres]
+  all_goals simp only [node_modify, hl2, and_self, if_true, hnode, newDir, homePerm]
+  · decide
+
+/-- the side conditions of `home_created` hold for ordinary homes (the default `/home/<name>`,
+nested ones, and spellings that only become ordinary by cleaning) -/
+example :
+    let ok (h : Text) : Bool :=
+      parts (clean h) = parts (dir (clean h)) ++ [base (clean h)] ∧
+        clean h ≠ slash ∧ clean h ≠ dot ∧ dir (clean h) ≠ dot
+    ok (homePrefix ++ ['a', 'p', 'p']) = true ∧ ok ['/', 'v', '/', 'l', '/', 'x', '/', 'y'] = true ∧
+    ok ['/', 'o', 'p', 't', '/', 'h', '/'] = true ∧ ok ['/', 'a', '/', '.', '/', 'b'] = true ∧ ok ['/', 'x'] = true := by
+  decide
+
 /-! ## path mutations -/
 
 /-- `mutatePaths` is the left fold of the loop body over the list, stopping at the first error:
